@@ -482,8 +482,36 @@ mod boxed {
   // 0111 1111 1111 1100 0000 0000 0000 0000 0000 0000 0000 0000 0000 0000 0000 0100
   pub const VALUE_UNDEFINED: Value = Value(TAG_UNDEFINED);
 
-  #[derive(PartialEq, Eq, Hash, Copy, Clone, Debug)]
+  #[derive(Copy, Clone, Debug)]
   pub struct Value(u64);
+
+  impl PartialEq for Value {
+    /// Determine if this `Value` and another `Value` are equal inside
+    /// of the laythe runtime. Numbers compare as numbers, everything
+    /// else by its bits
+    fn eq(&self, other: &Value) -> bool {
+      if self.is_num() && other.is_num() {
+        self.to_num() == other.to_num()
+      } else {
+        self.0 == other.0
+      }
+    }
+  }
+
+  impl Eq for Value {}
+
+  impl std::hash::Hash for Value {
+    fn hash<H: std::hash::Hasher>(&self, state: &mut H) {
+      use std::hash::Hash;
+
+      // equal numbers can differ in their bits (0 and -0)
+      if self.is_num() {
+        (self.to_num() as u64).hash(state);
+      } else {
+        self.0.hash(state);
+      }
+    }
+  }
 
   impl Value {
     #[inline]
